@@ -30,10 +30,25 @@ def run_property(pid, facts_path, tier, t0, extra_cov=None, quiet=False):
         import traceback
         err = traceback.format_exc()
         ctx.unknown(pid + '.engine', 'engine', 'crash', why='rule engine raised: %r' % (e,))
-    floors = getattr(mod, 'FLOORS', {})
+    floors = dict(getattr(mod, 'FLOORS', {}))
+    # Vacuity guard: every RULE that produced an obligation on the reference tree must produce at least one now (a rule that no
+    # longer matches anything would pass silently).  The count of obligations per rule is free: de-duplicating two call sites
+    # into a helper, or adding a field, changes how many instances a rule has, not whether it is armed.
+    ref_rules = None
+    try:
+        import json as _json
+        ref_rules = _json.load(open(os.path.join(os.path.dirname(os.path.abspath(__file__)), 'floors.json'))).get(pid)
+    except Exception:
+        ref_rules = None
+    seen_rules = set(o.oid for o in ctx.obs)
     n_ob = len(ctx.obs)
-    if n_ob < floors.get('obligations', 1):
-        ctx.unknown(pid + '.floor', 'framework', 'obligation-count', why='only %d obligations instantiated, floor is %d' % (n_ob, floors.get('obligations', 1)))
+    if ref_rules is None:
+        ctx.unknown(pid + '.floor', 'framework', 'rules', why='no reference rule list for %s (rules/floors.json): cannot tell whether the rule set is complete' % pid)
+    else:
+        missing = [r for r in ref_rules if r not in seen_rules]
+        floors['rules'] = len(ref_rules)
+        if missing:
+            ctx.unknown(pid + '.floor', 'framework', 'rules', why='rule(s) armed on the reference tree produced no obligation: %s' % ', '.join(missing[:8]))
     known = load_known()
     kmap = {k['key']: k for k in known.get('known', []) if k.get('property') == pid}
     viol, knownhits = [], []
